@@ -71,7 +71,7 @@ def make_cases_extension():
             yield {'moduli': [a], 'style': 'roundup', 'algs': 'sha256', 'banner': banner, 'family': 'extension'}
             yield {'moduli': [a, 8192], 'style': 'roundup', 'algs': 'both', 'banner': banner, 'family': 'extension'}
     grid = list(range(512, 8193, 256))
-    for k in (1, 2):
+    for k in (1, 2, 3):
         for combo in itertools.combinations(grid, k):
             for style in ('strict', 'roundup'):
                 yield {'moduli': list(combo), 'style': style, 'algs': 'sha256', 'banner': 'dropbear', 'family': 'extension'}
@@ -241,7 +241,7 @@ def run(ctx):
     if ctx.quick:
         head, tail = ext[:4 * len(NEAR)], ext[4 * len(NEAR):]
         ctx.rng.shuffle(tail)
-        ext = head + tail[:200]
+        ext = head + tail[:600]
     ctx.map(ext)
     ctx.note(stated_domain=len(stated), stated_run=len(part), fault_cases=len(faults), extension_cases=len(ext),
              explanation='stated domain = every subset of the nine sizes x 3 styles x 3 alg sets x 2 banners; exhaustive flag refers to that domain')
